@@ -960,10 +960,9 @@ impl<'a> TypeEncoder<'a> {
     fn export_resource(&self, state: &mut State, name: &str, id: ResourceId) -> u32 {
         log::debug!("encoding export of resource `{name}`");
 
-        if let Some(existing) = state.current.resources.get(name) {
-            return *existing;
-        }
-
+        // Every export name of a scope is encoded exactly once. The resource map is keyed
+        // by the name of the *resource*, which differs from the export name for a renamed
+        // use, so it cannot tell whether `name` has been exported already.
         let resource = &self.0[id];
         let index = if let Some(outer) = state.used_type_index(name) {
             // This is an alias to an outer resource type
